@@ -488,6 +488,23 @@ func genSpecs(rng *vlib.RNG, n int, dupPaths bool) []dspec {
 			specs = append(specs, specs[rng.Intn(len(specs))])
 			continue
 		}
+		if len(specs) > 0 && rng.Chance(0.2) {
+			// the same tagged finding reported again by ANOTHER stage (same file, span and tag; other
+			// stage, and another message or level so that the two are distinguishable): the two are
+			// duplicates for Canonicalize but do not sort next to each other
+			s := specs[rng.Intn(len(specs))]
+			if s.Tag != "" && s.File >= 0 {
+				s.Notes = append([]string(nil), s.Notes...)
+				s.Stage = 10 - s.Stage
+				if rng.Bool() {
+					s.Msg = vlib.Pick(rng, msgs)
+				}
+				s.Level = levels[rng.Intn(len(levels))]
+				s.Help = []string{"reported by another stage"}
+				specs = append(specs, s)
+				continue
+			}
+		}
 		if len(specs) > 0 && rng.Chance(0.35) {
 			// a near-duplicate: ties on every sort key, differs in ONE other attribute
 			s := specs[rng.Intn(len(specs))]
